@@ -1,4 +1,5 @@
 from collections import defaultdict
+from inspect import getfullargspec
 try:
     from collections import OrderedDict
 except ImportError:
@@ -35,6 +36,19 @@ def check_equation_array_properties(equation, particle_arrays):
     """
     p_arrays = dict((x.name, x) for x in particle_arrays)
     _src, _dest = get_arrays_used_in_equation(equation)
+    # The precomputed symbols used by the loop (HIJ, VIJ, RHOIJ, ...) read
+    # properties of the destination and source arrays too.
+    if not equation.no_source and hasattr(equation, 'loop'):
+        pre = Group.pre_comp
+        todo = [x for x in getfullargspec(equation.loop).args if x in pre]
+        seen = set()
+        while todo:
+            sym = todo.pop()
+            if sym not in seen:
+                seen.add(sym)
+                _src.update(pre[sym].src_arrays)
+                _dest.update(pre[sym].dest_arrays)
+                todo.extend(x for x in pre[sym].symbols if x in pre)
     if equation.dest not in p_arrays:
         msg = "ERROR: Equation {eq_name} has invalid dest: '{dest}'".format(
             eq_name=equation.name, dest=equation.dest
